@@ -39,9 +39,17 @@ def read(order, written_order, y, m, d):
     return got["Y"], got["M"], got["D"]
 
 
+# one chunk = the nine cases of one locale, executed in a worker forked for that chunk alone: the case's first call is the process's first use of the locale
+FRESH_PROCESS_SUBSPACES = {"explicit-order-then-the-locale's-own": 9}
+
+
 def spaces(tier, seed):
     T = tier == "thorough"
     sp = []
+    sp.append(Product("explicit-order-then-the-locale's-own", {"loc": range(len(LOCS)), "first_order": ["DMY", "YDM", "MDY"], "date": [(2024, 3, 4)], "plo": [None], "sep": ["/"],
+                                                               "worder": ["DMY", "MDY", "YMD"]},
+                      note="executed in freshly forked workers, one locale per worker (FRESH_PROCESS_SUBSPACES): the first call the process ever makes for the locale carries an explicit DATE_ORDER, the second (same case) none - "
+                           "the second must be read in the locale's own order (MDY if it has none); what a locale object remembers from its first use must not be the caller's order"))
     sp.append(Product("explicit-order", {"order": ORDERS, "sep": SEPS, "y": YEARS, "md": ALL_MD, "pad": [True, False],
                                          "suffix": ["", " 10:30"], "written": ["same"]},
                       note="string written in the supplied order"))
@@ -118,6 +126,17 @@ def run_two_languages(c):
 def run_case(sub, c):
     if sub == "one-parser-two-languages":
         return run_two_languages(c)
+    if sub == "explicit-order-then-the-locale's-own":
+        lang, loc = LOCS[c["loc"]]
+        y, m, d = c["date"]
+        langs, locs = ([lang], None) if loc is None else (None, [loc])
+        first = write(c["first_order"], c["sep"], y, m, d, True, "")
+        api.outcome_of(api.gdd, first, langs, locs, None, {"DATE_ORDER": c["first_order"]})
+        r = run_case("locale-own-order", {k: v for k, v in c.items() if k != "first_order"})
+        if r is not None and r[2] is not None:
+            r[2]["cls"]["form"] = sub
+            r[2]["detail"]["first_call"] = {"string": first, "DATE_ORDER": c["first_order"]}
+        return r
     if "order" in c:
         y = c["y"]
         m, d = c["md"]
